@@ -35,10 +35,11 @@ PARTIAL = ("the Coq model takes calldata as concrete bytes under a valuation (sy
            "NotConcreteError => stuck, outside the model); message bytes that are symbolic are not decoded by halmos and not modelled; "
            "bytes[]/string[] overloads are not supported by halmos: proved and checked to end the current path as a stuck path "
            "(no pass claimed, other paths kept); their relation itself is not specified; "
-           "a sequence is a straight line of cheatcode calls issued by one frame (no EVM computation between them)")
+           "a sequence is cheatcode calls and two-way branches (sides rejoin) run by one frame; branches that halmos decides without asking the oracle "
+           "(a symbol pinned by an equality on the path) are outside the model: outcomes no sampled input lies on are not compared")
 ASSUMPTIONS = [
     "ByteVec slices behave as a flat zero-extended byte array (property C07); z3py operators denote their SMT-LIB meaning (== / != equality, ULT/UGT/ULE/UGE unsigned, < > <= >= signed on BitVecRef)",
-    "the solver oracle is sound when it answers unsat (Section hypothesis of C13_fail_exact / C13_assert_continue); is_false() only holds for the literal false",
+    "the solver oracle is sound when it answers unsat for the path it is asked about (Section hypothesis of C13_fail_exact / C13_assert_continue / C13_seq_exact); tested on every run: each unsat answer ex.check gives inside the assert branch or SEVM.jumpi is checked against the sampled inputs of that path; is_false() only holds for the literal false",
     "the extracted model and driver are faithful to the Coq definitions (extraction is trusted)",
 ]
 
@@ -687,6 +688,8 @@ def _seq_code(chunks, steps=None):
 def branch_taken(st, val):
     """truth of the JUMPI condition of a branch step under a valuation"""
     x, c = val[st["var"]] % W, st["c"] % W
+    if st.get("hard"):
+        x = hard_fun(x)
     t = {"ult": x < c, "ugt": x > c, "slt": _signed(x) < _signed(c), "sgt": _signed(x) > _signed(c), "eq": x == c}[st["cmp"]]
     return t != bool(st.get("neg"))
 
@@ -762,7 +765,8 @@ def _impl_l2(case):
             if st["kind"] == "assume":
                 ps, n = [ASSUME_SEL.to_bytes(4, "big"), _assume_word(st["assume"], syms)], 36
             elif st["kind"] == "branch":
-                ps, n = [syms.setdefault(st["var"], z3.BitVec(st["var"], 256))], 32
+                # the compared word: the variable itself, or (hard) a function of it the branching solver cannot decide in 1 ms
+                ps, n = seg_parts([["m", st["var"]] if st.get("hard") else ["s", st["var"], 32]])[0], 32
             else:
                 sp, sn = seg_parts(st["segs"])
                 ps, n = [st["sel"].to_bytes(4, "big")] + sp, 4 + sn
@@ -1119,10 +1123,10 @@ def gen_l2seq(tier, r, table):
     def M(spec):
         return {"kind": "assume", "assume": spec}
 
-    def Br(cmp_, var, c, neg=False):
+    def Br(cmp_, var, c, neg=False, hard=False):
         # `if (var cmp c) {} else {}`: a JUMPI on the condition (negated: on its complement, i.e. the other side is the
         # fall-through, explored first), both sides rejoin
-        return {"kind": "branch", "cmp": cmp_, "var": var, "c": c, "neg": neg}
+        return {"kind": "branch", "cmp": cmp_, "var": var, "c": c, "neg": neg, "hard": hard}
 
     X, Y, B = [(0, 32, "x")], [(0, 32, "y")], [(31, 1, "b")]
     unsupported = [lambda: A("assertEq(bytes[],bytes[])", [("w", 64), ("w", 96), ("w", 0), ("w", 0)]),
@@ -1160,7 +1164,21 @@ def gen_l2seq(tier, r, table):
 
     def add(depth, steps, tag, slow_solver=None):
         has_branch = any(st["kind"] == "branch" for st in steps)
-        c = {"kind": "l2seq", "depth": depth, "steps": steps, "vals": vals(16 if thorough else 9), "tag": tag,
+        # valuations: random ones, plus every constant the steps compare against and its two neighbours (the inputs
+        # that tell the sides of each branch / assumption / assertion apart), for x and for y
+        consts = {3, 5, 10}
+        for st in steps:
+            if st["kind"] == "branch":
+                consts.add(st["c"] % W)
+            elif st["kind"] == "assume" and len(st["assume"]) == 3:
+                consts.add(st["assume"][2] % W)
+        bnd = sorted({(c_ + d_) % W for c_ in consts for d_ in (-1, 0, 1)})
+        if len(bnd) > 14:
+            bnd = sorted(r.sample(bnd, 14))
+        vs = vals(10 if thorough else 4)
+        vs += [{"x": v, "y": r.choice(bnd), "b": k % 2} for k, v in enumerate(bnd)]
+        vs += [{"x": r.choice(bnd), "y": v, "b": k % 2} for k, v in enumerate(bnd[::3])]
+        c = {"kind": "l2seq", "depth": depth, "steps": steps, "vals": vs, "tag": tag,
              "after": "assume_ok" if depth and len(cases) % 2 else "ignore"}
         if has_branch if slow_solver is None else slow_solver:
             # let the branching solver decide (its default allowance of 1 ms mostly does, but not on a loaded machine):
@@ -1193,6 +1211,9 @@ def gen_l2seq(tier, r, table):
             add(depth, [M(["ult", "x", 100]), Br("ugt", "x", 200), Br("ult", "x", 5, neg), asserts[1]()], "assume;branch;branch;assert")
         add(depth, [asserts[1](), Br("ult", "x", 5, depth % 2 == 0), asserts[0](), asserts[2]()], "assert;branch;assert;assert")
         add(depth, [M(["ult", "x", 10]), Br("ult", "x", 3, depth % 2 == 1), asserts[2](), u()], "assume;branch;assert;unsupported")
+        # a branch the solver cannot decide (default allowance): both sides must be followed
+        add(depth, [Br("ult", "x", 1 << 200, depth % 2 == 1, hard=True), asserts[1]()], "undecided-branch;assert", slow_solver=False)
+        add(depth, [M(["ult", "x", 12]), Br("slt", "x", 0, depth % 2 == 0, hard=True), asserts[0](), asserts[2]()], "assume;undecided-branch;assert;assert", slow_solver=False)
         for _ in range(24 if thorough else 4):
             # assume / refuted branch first (so that something has been learnt), then branches and asserts interleaved
             steps = [r.choice(assumes[:3])(), r.choice(branches)()]
@@ -1247,7 +1268,7 @@ def step_name(st):
         return st["sig"]
     if st["kind"] == "assume":
         return f"assume({st['assume']})"
-    return f"if({'!' if st.get('neg') else ''}{st['var']} {st['cmp']} {st['c']})"
+    return f"if({'!' if st.get('neg') else ''}{'f(' + st['var'] + ')' if st.get('hard') else st['var']} {st['cmp']} {st['c']})"
 
 
 def l2seq_model_calls(cases, impls):
@@ -1344,9 +1365,15 @@ def check_l2seq(rep, bad, cases, impls, res):
                 bad("broken-tie", f"L2s [{descr}] depth {c['depth']}: the model says an exception escapes, the implementation yields {paths}", shown)
             else:
                 outs = [mo[i:i + 5] for i in range(0, len(mo), 5)]
-                m_shape = sorted((o[0], o[3] if o[0] in (1, 3) else 0, o[2], o[4]) for o in outs)
+                # outcomes no sampled input lies on are left out on both sides: where halmos decides a branch without
+                # asking the oracle (a symbol pinned by an equality on the path makes the condition concrete) the model,
+                # for which an unrecorded query is Unknown, also follows the side that is empty; a side that is wrongly
+                # not followed still shows, as a model outcome with inputs on it that the implementation lacks
+                m_shape = sorted((o[0], o[3] if o[0] in (1, 3) else 0, o[2], o[4]) for o in outs if o[4])
                 i_shape = sorted(((1, p["depth"], 1, p["mask"]) if p["flag"] else (3, p["depth"], 0, p["mask"]) if p["stuck"]
-                                  else (2, 0, 0, p["mask"]) if p["error"] is None else (4, p["depth"], 0, p["mask"])) for p in paths)
+                                  else (2, 0, 0, p["mask"]) if p["error"] is None else (4, p["depth"], 0, p["mask"])) for p in paths if p["mask"])
+                if len(m_shape) != len(outs) or len(i_shape) != len(paths):
+                    rep.count("l2seq_model", "outcomes-without-sampled-input-left-out")
                 if im.get("record_conflicts"):
                     # two paths that the sampled inputs do not tell apart got different answers for the same query:
                     # the oracle table handed to the model is ambiguous, the shapes are not compared
@@ -1577,7 +1604,7 @@ def run(rep, tier):
         trusted_base=common.TRUSTED_BASE_COMMON,
         assumptions=ASSUMPTIONS,
         partial=PARTIAL,
-        rule="L1 cases = (bound selector, calldata layout of concrete and symbolic chunks, valuations): word operands over sign/width boundaries (all pairs), bytes of lengths 0,1,31,32,33,64 equal / one bit flipped / prefix / trailing zero, arrays of lengths 0-3 equal / one element / length differing, messages incl. invalid UTF-8, truncated and out-of-range offsets; a case is non-trivial when its concretised calldata is a valid ABI encoding for the signature (so that the stated relation is defined); each valuation is one evaluation of the real handler's z3 condition vs the extracted model vs the Python spec. Signature-string cases = mk_assert_handler on table and mutated signatures compared behaviourally on 16 probe calldatas. L2 cases = (call depth 0..3, a vm.assume prefix [const / x<c / signed x<c / x!=0], a cheatcode call with concrete or symbolic operands, valuations): SEVM.run on a chain of forwarding contracts; per valuation the set of yielded paths whose constraints hold is compared with the spec (failure reported iff assumption holds and relation false; passing inputs continue; inputs excluded by the assumption have no path), and the outcome shape with the branching model fed with the recorded solver answers; every bound selector is also run once passing and once failing at a random depth. L2s cases = (call depth 0..3, a sequence of 2-5 cheatcode calls issued by that frame: asserts over x / y / a bool, literally true / false asserts, bytes and array asserts, assumes [x<c, signed, y!=0, const], unsupported bytes[]/string[] overloads; fixed orders that put a failing branch on the worklist before an unsupported call, plus random orders; valuations of x, y, b): per valuation the yielded paths are compared with Foundry's run of the sequence on that input alone (failure iff first bad step is an assertion; pass => reaches the end; unsupported => on a stuck path; rejected => nowhere), and the multiset of (kind, frame depth, flag) with Model.run_prog fed with the recorded solver answers; non-trivial when at least one valuation gives every assert a valid encoding. Catch cases = every class of halmos.exceptions and 10 builtins: the model's except-clause routing vs Python's issubclass",
+        rule="L1 cases = (bound selector, calldata layout of concrete and symbolic chunks, valuations): word operands over sign/width boundaries (all pairs), bytes of lengths 0,1,31,32,33,64 equal / one bit flipped / prefix / trailing zero, arrays of lengths 0-3 equal / one element / length differing, messages incl. invalid UTF-8, truncated and out-of-range offsets; a case is non-trivial when its concretised calldata is a valid ABI encoding for the signature (so that the stated relation is defined); each valuation is one evaluation of the real handler's z3 condition vs the extracted model vs the Python spec. Signature-string cases = mk_assert_handler on table and mutated signatures compared behaviourally on 16 probe calldatas. L2 cases = (call depth 0..3, a vm.assume prefix [const / x<c / signed x<c / x!=0], a cheatcode call with concrete or symbolic operands, valuations): SEVM.run on a chain of forwarding contracts; per valuation the set of yielded paths whose constraints hold is compared with the spec (failure reported iff assumption holds and relation false; passing inputs continue; inputs excluded by the assumption have no path), and the outcome shape with the branching model fed with the recorded solver answers; every bound selector is also run once passing and once failing at a random depth. L2s cases = (call depth 0..3, a sequence of 2-5 cheatcode calls issued by that frame: asserts over x / y / a bool, literally true / false asserts, bytes and array asserts, assumes [x<c, signed, y!=0, const], unsupported bytes[]/string[] overloads; fixed orders that put a failing branch on the worklist before an unsupported call, plus random orders; valuations of x, y, b): per valuation the yielded paths are compared with Foundry's run of the sequence on that input alone (failure iff first bad step is an assertion; pass => reaches the end; unsupported => on a stuck path; rejected => nowhere), and the multiset of (kind, frame depth, flag) with Model.run_prog fed with the recorded solver answers; non-trivial when at least one valuation gives every assert a valid encoding. Branching sequences (the same comparison): an assumption or a refuted branch first, then JUMPIs on x / y / an undecidable function of x (both polarities, so that either side is the fall-through explored first) interleaved with asserts on the same operands; valuations include every compared constant and its neighbours; the oracle handed to the model is the table of the real ex.check answers keyed by (sampled inputs on the path asked about, step, negated), and every unsat answer is tested against those inputs. Catch cases = every class of halmos.exceptions and 10 builtins: the model's except-clause routing vs Python's issubclass",
     )
 
 
